@@ -244,6 +244,13 @@ class Gen:
             if forged != good:
                 name = C.hostname(b"l", bytes([cl.c.userid & 0xff]) + forged + cl.c._rs(), self.td)[0]
                 kw = {"forged": True}
+        if not kw and self.rng.random() < 0.12:
+            # the right response, but the message is cut short / has no or a short CMC tail (17, 18, 19 bytes instead of the usual 19)
+            good = C.login_hash(self.pw, cl.c.seed)
+            body = bytes([cl.c.userid & 0xff]) + good + cl.c._rs()
+            cut = self.rng.choice([15, 16, 17, 18])
+            name = C.hostname(b"l", body[:cut], self.td)[0]
+            kw = {"short": cut}
         st = self.q(cl, name, meta={"kind": "L", "good": not kw})
         if st:
             for e in st.events:
